@@ -557,11 +557,8 @@ def run(ctx):
             ctx.branch("stage2:" + op.split()[0] + ":" + ml.split()[0])
         k = next((i for i, o in enumerate(stage2) if o.startswith("used")), 0)
         ctx.sample({"used_dump_printed_by_code": unhx(impl2[k].split()[1]) if impl2[k].startswith("ok") else impl2[k]})
-    # ---- HDF5 clause: replayable experiment only (thorough tier, or VERIF_C20_SNAP=1)
-    if ctx.thorough or os.environ.get("VERIF_C20_SNAP"):
-        snapshot_experiment(ctx)
-    else:
-        ctx.cov["snapshot_experiment"] = "thorough tier only"
+    # ---- HDF5 clause: replayable experiment only (search, no proof); small budget in quick, larger in thorough
+    snapshot_experiment(ctx)
     # coverage gate (thorough): every printer branch of the model must have been taken
     if ctx.thorough:
         need = ["yaml:A=1", "yaml:B=1", "yaml:stale=1", "yaml:reemit=1", "yaml:jump=1", "units:tosi-same", "units:tosi-cross",
@@ -592,15 +589,39 @@ def snap_build():
     return vlib.build_harness("c20_snap", extra=[i for i in inc if i.startswith("-I")], libs=libs)
 
 
-def snap_ops(rng, n):
+LAYOUTS = {4: [(1, 2, 4), (2, 2, 4), (1, 1, 2), (2, 2, 2)],
+           6: [(1, 2, 3), (2, 3, 6), (1, 3, 6), (3, 3, 3)],
+           8: [(1, 2, 4), (2, 4, 8), (1, 4, 8), (2, 4, 2), (2, 2, 2)],
+           12: [(2, 3, 4), (1, 3, 6), (2, 6, 12), (3, 4, 6), (4, 4, 4)]}
+
+
+def snap_ops(rng, n_plain, n_task):
+    """`snap`: legacy Cartesian grid -> CMacIonizeSnapshotDensityFunction;
+    `snapb`: task-based grid (DensitySubGridCreator) -> both readers.  For `snapb` the per-subgrid
+    cell counts differ in x, y and z in every ordering, and the buffer is smaller than the number
+    of subgrids.  Box values have short mantissas and <= 5 decimal digits, so that the box the
+    reader rebuilds from the stored (6 digit) parameters is the same box."""
+    import itertools
     ops = []
-    for _ in range(n):
+    for _ in range(n_plain):
         nc = [rng.choice([1, 2, 3, 4, 5, 8]) for _ in range(3)]
         scale = rng.choice([1.0, 3.086e16, 1e-3, 10 ** rng.uniform(-6, 20)])
         anchor = [rng.choice([0.0, -0.5 * scale, scale * rng.uniform(-2, 2)]) for _ in range(3)]
         sides = [scale * rng.choice([1.0, 2.0, rng.uniform(0.1, 3.0), 1.0 / 3]) for _ in range(3)]
         ops.append("snap %d %d %d %s %s %d" % (nc[0], nc[1], nc[2], " ".join(str(vlib.f2bits(a)) for a in anchor),
                                               " ".join(str(vlib.f2bits(x)) for x in sides), rng.getrandbits(40)))
+    perms = [(n, p) for n, ls in LAYOUTS.items() for l in ls for p in sorted(set(itertools.permutations(l)))]
+    # all orderings of one unequal layout first (8^3 cells: the six permutations of 1,2,4 subgrids)
+    first = [(8, p) for p in sorted(set(itertools.permutations((1, 2, 4))))]
+    chosen = (first + [rng.choice(perms) for _ in range(max(0, n_task - len(first)))])[:n_task]
+    for (n, g) in chosen:
+        scale = rng.choice([1.0, 3.086e16, 1e5, 0.25, 1024.0])
+        side = scale * rng.choice([1.0, 2.0, 10.0, 8.0])
+        anchor = [side * rng.choice([0.0, -0.5, -1.0, 0.5, 1.5, 2.0]) for _ in range(3)]
+        nsub = g[0] * g[1] * g[2]
+        buf = rng.randint(1, max(1, nsub - 1))
+        ops.append("snapb %d %d %d %d %s %d %d %d" % (n, g[0], g[1], g[2], " ".join(str(vlib.f2bits(a)) for a in anchor),
+                                                     vlib.f2bits(side), buf, rng.getrandbits(40)))
     return ops
 
 
@@ -611,14 +632,17 @@ def snapshot_experiment(ctx):
     except Exception as e:      # not claimed: an environment without HDF5 does not fail the check
         ctx.cov["snapshot_experiment"] = "not run: %s" % (str(e)[:300],)
         return
-    ops = snap_ops(ctx.rng, ctx.budget(10, 150))
+    ops = snap_ops(ctx.rng, ctx.budget(3, 150), ctx.budget(6, 120))
     rc, out, err = vlib.run_exe(exe, "\n".join(ops) + "\n", timeout=1200)
     ans, orc = vlib.split_oracle(out)
-    ctx.cov["snapshot_experiment"] = {"grids": len(ops), "answers": len(ans), "oracle_failures": len(orc), "rc": rc,
+    ctx.cov["snapshot_experiment"] = {"grids": len(ops), "legacy_grids": len([o for o in ops if o.startswith("snap ")]),
+                                      "task_based_grids_both_readers": len([o for o in ops if o.startswith("snapb")]),
+                                      "answers": len(ans), "oracle_failures": len(orc), "rc": rc,
                                       "max_rel_dev": max([float(a.split("maxrel=")[1]) for a in ans if "maxrel=" in a] or [0.0])}
     for o in orc:
         i = int(re.search(r"line=(\d+)", o).group(1)) - 1
-        ctx.violation("snapshot:roundtrip-differs", "HDF5 snapshot written by GadgetDensityGridWriter and read by CMacIonizeSnapshotDensityFunction differs: " + o,
+        what = re.sub(r"line=\d+\s*", "", o[len("ORACLE"):]).strip()
+        ctx.violation("snapshot:" + what.split()[0], "HDF5 snapshot written by the real GadgetDensityGridWriter and read back on the same geometry differs: " + what,
                       {"stream": "snapshot", "ops": [ops[i]], "oracle": o})
     if rc != 0 or len(ans) != len(ops):
         k = min(len(ans), len(ops) - 1)
@@ -626,7 +650,9 @@ def snapshot_experiment(ctx):
                       {"stream": "snapshot", "ops": [ops[k]], "stderr": err[-1500:]})
     for o in ops:
         ctx.count()
-        ctx.branch("snapshot:grid")
+        w = o.split()
+        ctx.branch("snapshot:" + w[0])
+        ctx.distinct(("snapshot", o), nontrivial=(w[0] == "snapb" and len({w[2], w[3], w[4]}) > 1))
 
 
 def readable(op):
@@ -669,8 +695,9 @@ MANIFEST = dict(
           "toSI_toUnit / toUnit_toSI and the two cross-quantity rows of try_conversion (inverse when factor and value are non-zero). Tie: the same Lean definitions (drv_c20) vs the real "
           "YAMLDictionary/ParameterFile/UnitConverter: printed text byte-identical, dictionaries identical, unit values bit-identical at Float and within 2e-15 of the exact model; oracles on "
           "the real code: parse(print d)=d, print idempotent, used-values dump fed back reproduces every queried value to 1e-5, to_unit(to_SI)=id to 1e-14, compound=product, x^0=1, table relations."),
-    note=("NOT modelled, NOT proved: the HDF5 snapshot write/read clause (no Lean model of HDF5) - only a replayable experiment in the thorough tier (real GadgetDensityGridWriter -> real "
-          "CMacIonizeSnapshotDensityFunction on random Cartesian grids, cell values compared, search only). Also outside the theorems: number formatting of the used-values dump (operator<< of "
+    note=("NOT modelled, NOT proved: the HDF5 snapshot write/read clause (no Lean model of HDF5) - only a replayable experiment, search only, run in both tiers: the real GadgetDensityGridWriter "
+          "(legacy grid and task-based DensitySubGridCreator layouts with unequal per-subgrid cell counts) read back on the same geometry through the real "
+          "CMacIonizeSnapshotDensityFunction and BufferedCMacIonizeSnapshotDensityFunction (buffer smaller than the number of subgrids), every cell compared. Also outside the theorems: number formatting of the used-values dump (operator<< of "
           "double; compared by oracle to 1e-5) and rounding of the double arithmetic in conversions (measured: bit-exact rate of the Float model, max deviation of the exact model). "
           "Trusted: Lean kernel + 3 standard axioms; hand model of YAMLDictionary.hpp / Unit.hpp / UnitConverter.hpp (tied by the differential run); translator tools/gen_c20_units.py "
           "(names by regex, values by evaluation, every name re-compared through the `single` op); characters compared by code point (ASCII generator); parser UB on a line indented less "
